@@ -26,6 +26,10 @@ class OAtom:
         self.k = frac(k)
         self.params = params
         shape = () if kind in SCALAR_OUT else self.arg.shape
+        if kind == 'power':
+            # NumPy semantics: the argument is broadcast against the arrays of exponents
+            shape = np.broadcast_shapes(shape, np.shape(params[0]), np.shape(params[1]))
+            self.nat_shape = shape
         self.off = parr(np.zeros(shape)) if off is None else parr(off)
 
     @property
@@ -192,8 +196,9 @@ def atom_phi(atom, env):
         # |x|^(p/q) element-wise, p >= q >= 1 integers: r >= 0, r^q == |x|^p
         ps, qs = atom.params
         out = []
-        flat_p = np.broadcast_to(np.array(ps), atom.off.shape).reshape(-1) if np.ndim(ps) else [ps] * len(args)
-        flat_q = np.broadcast_to(np.array(qs), atom.off.shape).reshape(-1) if np.ndim(qs) else [qs] * len(args)
+        args = _to_shape(args, atom.arg.shape, atom.nat_shape)
+        flat_p = np.broadcast_to(np.array(ps), atom.nat_shape).reshape(-1)
+        flat_q = np.broadcast_to(np.array(qs), atom.nat_shape).reshape(-1)
         for t, p, q in zip(args, flat_p, flat_q):
             r = env.new('pw')
             a = z_abs(z3, t)
@@ -242,17 +247,25 @@ def atom_domain(atom, env):
     return []
 
 
+def _to_shape(items, src, dst):
+    arr = np.empty(len(items), dtype=object)
+    arr[:] = list(items)
+    return list(np.broadcast_to(arr.reshape(src), dst).reshape(-1))
+
+
 def _bcast_phi(a, phis):
     """Values of phi (one per argument entry, or a single scalar) broadcast to the shape of the offset, as
     NumPy broadcasts `atom(arg) + off`."""
     n = a.off.size
-    if len(phis) == n and (isinstance(a.arg, list) or a.arg.shape == a.off.shape or a.kind in SCALAR_OUT):
+    src = getattr(a, 'nat_shape', None) if a.kind == 'power' else None
+    src = a.arg.shape if src is None or isinstance(a.arg, list) else src
+    if len(phis) == n and (isinstance(a.arg, list) or src == a.off.shape or a.kind in SCALAR_OUT):
         return phis
     if len(phis) == 1:
         return phis * n
     arr = np.empty(len(phis), dtype=object)
     arr[:] = phis
-    arr = arr.reshape(a.arg.shape)
+    arr = arr.reshape(src)
     return list(np.broadcast_to(arr, a.off.shape).reshape(-1))
 
 
@@ -471,7 +484,7 @@ def direct_le(a, env):
         args = [env.p(p) for p in a.arg.reshape(-1)]
         offs = [env.p(p) for p in a.off.reshape(-1)]
         n = len(offs)
-        args = _bcast_phi(a, args)
+        args = _to_shape(args, a.arg.shape, a.off.shape)
         fp = np.broadcast_to(np.array(ps), a.off.shape).reshape(-1)
         fq = np.broadcast_to(np.array(qs), a.off.shape).reshape(-1)
         out = []
@@ -582,9 +595,10 @@ def atom_eval(a, args):
         return [float(sum(math.log(v) for v in args))] if all(v > 0 for v in args) else [-1e300]
     if k == 'power':
         ps, qs = a.params
-        fp = np.broadcast_to(np.array(ps, dtype=float), a.off.shape).reshape(-1)
-        fq = np.broadcast_to(np.array(qs, dtype=float), a.off.shape).reshape(-1)
-        return [abs(v) ** (p / q) for v, p, q in zip(args, fp, fq)]
+        nat = getattr(a, 'nat_shape', a.arg.shape)
+        fp = np.broadcast_to(np.array(ps, dtype=float), nat).reshape(-1)
+        fq = np.broadcast_to(np.array(qs, dtype=float), nat).reshape(-1)
+        return [abs(v) ** (p / q) for v, p, q in zip(_to_shape(list(args), a.arg.shape, nat), fp, fq)]
     if k == 'pnorm':
         p = a.params[0] / a.params[1]
         return [float((np.abs(args) ** p).sum() ** (1 / p))]
